@@ -82,3 +82,13 @@ KERNEL_OF_WEIGHT = {
     "1/u": lambda z, xi, log: 1,
     "ln(u/xi)/u^2": lambda z, xi, log: z * log(1 / z) / xi,
 }
+
+
+# the weights themselves, as functions of u (for the machine check of L-cov's kernel table:
+# k(z) == (xi/z) * w(xi/z), which is what the substitution u = xi/z, du = -xi dz/z^2 gives)
+WEIGHT = {
+    "1/u^2": lambda u, xi, log: 1 / u**2,
+    "(u-xi)/u^2": lambda u, xi, log: (u - xi) / u**2,
+    "1/u": lambda u, xi, log: 1 / u,
+    "ln(u/xi)/u^2": lambda u, xi, log: log(u / xi) / u**2,
+}
